@@ -22,6 +22,10 @@ def main():
         ps += [gen.make_program(q, b) for q in gen.c02_extra(b)]
         ps += gen.c10_programs(b) + gen.c11_programs(b)          # declared types (incl. tree types, enums) and injected functions
         ps = [p for p in ps if "must_raise" not in p.tags]
+        # the second query of one executor object (same text): collections, tokens, injected functions, declared types
+        import dataclasses
+        again = [p for p in gen.c06_programs(b) if "must_raise" not in p.tags] + ps[:25] + gen.c11_programs(b)[:6] + gen.c10_programs(b)[:6]
+        ps += [dataclasses.replace(p, tags=tuple(p.tags) + ("twice",), label=(p.label or "") + " [second query of the executor]") for p in again if "must_raise" not in p.tags]
         meta["families"][b] = dict(m, programs=len(ps))
         programs += ps
     if a.limit:
